@@ -14,9 +14,9 @@ func configs() []cfg {
 	return []cfg{
 		{id: "C01", pkg: "checks/c01", level: "model_checking", workers: 16},
 		{id: "C02", pkg: "checks/c02", level: "model_checking", workers: 16},
-		{id: "C03", pkg: "checks/c03", level: "model_checking", workers: 16},
+		{id: "C03", pkg: "checks/c03", level: "model_checking", workers: 16, thoroBud: 30 * time.Minute},
 		{id: "C04", pkg: "checks/c04", level: "model_checking", workers: 8, instr: rtmpI, race: true},
-		{id: "C05", pkg: "checks/c05", level: "exploration", workers: 16},
+		{id: "C05", pkg: "checks/c05", level: "exploration", workers: 16, thoroBud: 30 * time.Minute},
 		{id: "C06", pkg: "checks/c06", level: "exploration", workers: 16},
 		{id: "C07", pkg: "checks/c07", level: "exploration", workers: 16, quickBud: 150 * time.Second, thoroBud: 25 * time.Minute,
 			instr: []instr.PkgRules{
